@@ -1,13 +1,20 @@
 (* C07 - the directive-option tokenizer agrees with YAML on its subset and fails only its own way.
-   Statements only; proofs are in Opt/OptSafe.v and Opt/OptAgree.v.
-   [options_to_items] is the model (Opt/OptModel.v) of myst_parser.parsers.options.options_to_items,
-   its tables are regenerated from the source on every run (Gen/OptConsts.v). *)
+   Statements only; proofs are in Opt/OptSafe.v (totality) and Opt/OptAgree*.v (agreement).
+   [options_to_items] is the model (Opt/OptModel.v) of myst_parser.parsers.options.options_to_items;
+   its character classes and escape tables are regenerated from the source on every run
+   (Gen/OptConsts.v).  [block], [print_block], [meaning_block], [wf_block] are the supported YAML
+   subset, its concrete syntax and its YAML 1.1 meaning (Opt/YamlSpec.v). *)
 From Coq Require Import List NArith Bool.
 From MV Require Import Base.PyStr.
 From MV Require Import Base.Res.
 From MV Require Import Gen.OptConsts.
 From MV Require Import Opt.OptModel.
 From MV Require Import Opt.OptSafe.
+From MV Require Import Opt.YamlSpec.
+From MV Require Import Opt.OptAgreeTop.
+From MV Require Import Opt.OptAgreeBlock.
+From MV Require Import Opt.OptAgreeQuoted.
+From MV Require Import Opt.OptAgreeAll.
 Import ListNotations.
 Open Scope N_scope.
 
@@ -22,10 +29,105 @@ Theorem C07_in_bounds : forall text : str, options_to_items text <> Raise IndexE
 Proof. exact in_bounds. Qed.
 Print Assumptions C07_in_bounds.
 
-(* on every text (no premise, embedded NUL included) the result is pairs or TokenizeError carrying
-   an index inside the text; never IndexError / ValueError / OverflowError *)
+(* on every text (no premise; texts with an embedded NUL included, which the code reads as end of
+   input) the result is pairs or TokenizeError carrying an index inside the text; never
+   IndexError / ValueError / OverflowError *)
 Theorem C07_only_tokenize_error : forall text : str,
   (exists pairs, options_to_items text = Ok pairs) \/
   (exists p, options_to_items text = Raise (TokenizeError p) /\ p <= N.of_nat (length text)).
 Proof. exact only_tokenize_error. Qed.
 Print Assumptions C07_only_tokenize_error.
+
+(* without the range test added by the fix: commit, chr() of an 8-digit escape raises OverflowError
+   (the code as it was: int(prefix, 16) followed directly by chr) *)
+Theorem C07_unguarded_chr_refuted :
+  exists ds : str, length ds = 8%nat /\ forallb is_hex ds = true /\
+                   (do code <- int16 ds; py_chr code) = Raise OverflowError.
+Proof. exists [70; 70; 70; 70; 70; 70; 70; 70]. repeat split. Qed.
+Print Assumptions C07_unguarded_chr_refuted.
+
+(* agreement with YAML on the whole supported subset: block mappings whose keys are plain,
+   single- or double-quoted scalars and whose values are absent, plain (single or multi-line),
+   single-quoted, double-quoted (all escapes, multi-line folding), literal or folded block scalars
+   (chomping and indentation indicators in both orders, header comments), with comment lines,
+   trailing comments and blank lines.  No family is left to the differential test alone. *)
+Theorem C07_yaml_agree : forall b : block,
+  wf_block b = true -> options_to_items (print_block b) = Ok (meaning_block b).
+Proof. exact yaml_agree. Qed.
+Print Assumptions C07_yaml_agree.
+
+(* the per-family lemmas the theorem is composed of (scanning of one key / one value) *)
+Theorem C07_yaml_agree_plain_key : forall l, wf_key (KPlain l) = true -> OptAgree.key_spec (KPlain l).
+Proof. exact key_spec_plain. Qed.
+Print Assumptions C07_yaml_agree_plain_key.
+
+Theorem C07_yaml_agree_multiline_plain : forall vsp l0 more tsp cm trail,
+  wf_value (VFlow vsp (FPlain l0 more) tsp cm) = true ->
+  OptAgree.value_spec (VFlow vsp (FPlain l0 more) tsp cm) trail.
+Proof. exact value_spec_plain. Qed.
+Print Assumptions C07_yaml_agree_multiline_plain.
+
+Theorem C07_yaml_agree_squoted : forall vsp l0 more tsp cm trail,
+  wf_value (VFlow vsp (FSingle l0 more) tsp cm) = true ->
+  OptAgree.value_spec (VFlow vsp (FSingle l0 more) tsp cm) trail.
+Proof. exact value_spec_single. Qed.
+Print Assumptions C07_yaml_agree_squoted.
+
+Theorem C07_yaml_agree_dquoted_escapes : forall vsp l0 more tsp cm trail,
+  wf_value (VFlow vsp (FDouble l0 more) tsp cm) = true ->
+  OptAgree.value_spec (VFlow vsp (FDouble l0 more) tsp cm) trail.
+Proof. exact value_spec_double. Qed.
+Print Assumptions C07_yaml_agree_dquoted_escapes.
+
+Theorem C07_yaml_agree_literal_folded : forall vsp folded h lead indent first more trail,
+  wf_value (VBlock vsp folded h lead indent first more) = true ->
+  OptAgree.value_spec (VBlock vsp folded h lead indent first more) trail.
+Proof. exact value_spec_block. Qed.
+Print Assumptions C07_yaml_agree_literal_folded.
+
+(* ---- non-vacuity ---- *)
+
+(*  # c
+    k1 : v w   # t
+
+    'q''k': "a\tb\x41 \
+    (next line)  c"
+    lit: |+2
+        x
+      y
+
+    fo: >-
+     a
+     b
+
+      c
+*)
+Definition ex_block : block :=
+  BK 0 [ IComment [32; 99] 0;
+         IKV (KPlain (PL [107; 49] [])) 1 (VFlow 1 (FPlain (PL [118] [(1%nat, [119])]) []) 3 (Some [32; 116])) 1;
+         IKV (KSingle [113; 39; 107]) 0
+             (VFlow 1 (FDouble [DChr 97; DEsc 116; DChr 98; DHex 120 [52; 49]] [([32], 0%nat, [32; 32], [DChr 99])]) 0 None) 0;
+         IKV (KPlain (PL [108; 105; 116] [])) 0
+             (VBlock 1 false (HD Keep true true 0 None) 0 2 [32; 32; 120] [(0%nat, [121])]) 1;
+         IKV (KPlain (PL [102; 111] [])) 0
+             (VBlock 1 true (HD Strip false false 0 None) 0 1 [97] [(0%nat, [98]); (1%nat, [32; 99])]) 0 ].
+
+Example C07_example_wf : wf_block ex_block = true.
+Proof. vm_compute. reflexivity. Qed.
+
+Example C07_example_result :
+  options_to_items (print_block ex_block) =
+  Ok [ ([107; 49], [118; 32; 119]);
+       ([113; 39; 107], [97; 9; 98; 65; 32; 99]);
+       ([108; 105; 116], [32; 32; 120; 10; 121; 10; 10]);
+       ([102; 111], [97; 32; 98; 10; 10; 32; 99]) ].
+Proof. vm_compute. reflexivity. Qed.
+
+(* an embedded NUL is the end of the input for the tokenizer *)
+Example C07_example_nul :
+  options_to_items [97; 58; 32; 98; 10; 0; 99; 58; 32; 39] = options_to_items [97; 58; 32; 98; 10].
+Proof. vm_compute. reflexivity. Qed.
+
+(* errors carry the index of the offending character *)
+Example C07_example_error : options_to_items [97; 58; 32; 39; 98] = Raise (TokenizeError 5).
+Proof. vm_compute. reflexivity. Qed.
